@@ -57,6 +57,12 @@ def case(idx, payload):
     tree, err = impl_parse(text)
     model = c01.model_parse_dump(text)
     res = dict(idx=idx, kind=kind, text=text, impl_accepts=tree is not None, model_accepts=not model.startswith("ERR"), bad=None)
+    if tree is not None and model == "ERR ValidationError":
+        # the text is grammatical but breaks an explicit validity rule of the dialect (a constructor must be named like
+        # its class, operator arity/shape: Props/C07.lean `C07_ctor_name_checked`, `C07_operator_arity_checked`)
+        res["bad"] = dict(kind="spec", what="input accepted although it breaks a validity rule of the dialect (constructor name / operator shape)",
+                          input=text, corruption=kind)
+        return res
     if tree is not None:
         impl_dump = pydump.module(tree)
         if res["model_accepts"] and model != impl_dump:
@@ -78,6 +84,65 @@ def case(idx, payload):
                 return res
     elif res["model_accepts"]:
         res["bad"] = dict(kind="model", what="model accepts an input the implementation rejects (%s)" % err, input=text)
+    return res
+
+
+def semantic_case(idx, payload):
+    """grammatical text that the dialect's validity rules or the generators cannot use: a method whose return type was
+    lost (a constructor-shaped member with a foreign name) in a class with or without genuine constructors, a misspelled
+    constructor overload, an operator of the wrong shape, a dunder method the Python generator has no binding for.
+    The parser (first three) resp. the pybind generator (last) must reject, or else use every declaration."""
+    import gen
+    import streams
+    from common import impl_pybind
+    seed, _ = payload
+    rng = random.Random(seed * 1000003 + idx + 99991)
+    g = gen.Gen(rng, gen.Cfg(max_decls=3, max_members=4, max_depth=1, rich_defaults=False, allow_dunder=False, p_template=0.15,
+                             extra_kinds=['cls', 'cls']))
+    m = g.gen_module()
+    classes = [d.cls for _, content in gen.walk_namespaces(m) for d in content if d.kind == 'cls']
+    res = dict(idx=idx, kind="none", text="", impl_accepts=False, model_accepts=False, bad=None)
+    if not classes:
+        return res
+    c = rng.choice(classes)
+    kind = rng.choice(["ctor-shaped-method", "ctor-shaped-method", "misspelled-ctor", "operator-shape", "unknown-dunder"])
+    n_ctor = rng.choice([0, 1, 2])
+    for _ in range(n_ctor):
+        c.members.insert(rng.randint(0, len(c.members)), gen.Member('ctor', name=c.name, args=g.gen_args((), n=rng.randint(0, 2))))
+    if kind == "ctor-shaped-method":
+        c.members.insert(rng.randint(0, len(c.members)),
+                         gen.Member('ctor', name=rng.choice(["print", "update", "insert", "f", c.name + "x"]), args=g.gen_args((), n=rng.randint(0, 2))))
+    elif kind == "misspelled-ctor":
+        c.members.insert(rng.randint(0, len(c.members)), gen.Member('ctor', name=(c.name[:-1] if len(c.name) > 1 else c.name + "x"), args=g.gen_args((), n=1)))
+    elif kind == "operator-shape":
+        cls_ty = gen.Ty([], c.name, None, False, '', False)
+        other = gen.Ty([], "double", None, False, '', True)
+        shape = rng.choice(["two-args", "unary-star", "foreign-arg"])
+        args = {"two-args": [gen.Arg(cls_ty, "a"), gen.Arg(cls_ty, "b")], "unary-star": [], "foreign-arg": [gen.Arg(other, "a")]}[shape]
+        c.members.insert(rng.randint(0, len(c.members)), gen.Member('op', ret=gen.Ret(cls_ty), sym='*', args=args))
+    else:
+        c.tmpl = None
+        c.members.insert(rng.randint(0, len(c.members)), gen.Member('dunder', name=rng.choice(["str", "lenn", "hash", "itre", "call"]), args=[]))
+    text = gen.layout(rng, gen.lexemes(m), rng.choice(['space', 'lines', 'comments']))
+    res.update(kind=kind, text=text)
+    import props.c01 as c01
+    tree, err = impl_parse(text)
+    model = c01.model_parse_dump(text)
+    res["impl_accepts"], res["model_accepts"] = tree is not None, not model.startswith("ERR")
+    if kind != "unknown-dunder":
+        if tree is not None:
+            res["bad"] = dict(kind="spec", what="input accepted although it breaks a validity rule of the dialect (%s)" % kind,
+                              input=text, corruption=kind)
+        elif model != "ERR ValidationError":
+            res["bad"] = dict(kind="model", what="model does not report a validation error for %s: %s" % (kind, model[:60]), input=text)
+        return res
+    if tree is None:
+        return res
+    out = impl_pybind(text, streams.TPL_MIN, "m", [''], False, [], None)
+    dunder = [mb.name for mb in c.members if mb.kind == 'dunder'][0]
+    if out[0] == "ok" and ("__%s__" % dunder) not in out[1]:
+        res["bad"] = dict(kind="spec", what="pybind generation succeeds although the declaration __%s__ is silently left out" % dunder,
+                          input=text, corruption=kind)
     return res
 
 
@@ -138,6 +203,7 @@ def run(ctx, n, n_scripts, off=0, collect=True):
     first = None
     rejected = []
     res = fw.run_cases(case, [(ctx.seed + off, "tokens")] * n + [(ctx.seed + off + 1, "chars")] * (n // 4))
+    res += fw.run_cases(semantic_case, [(ctx.seed + off, None)] * (n // 3))
     for r in res:
         if "crash" in r:
             raise RuntimeError(r["crash"])
